@@ -85,30 +85,43 @@ Record icase := mki {
   i_in : list line;                     (* the input file *)
   i_obs : res (list line);              (* decompressed output, or the exception *)
   i_after : option (list line);         (* the input file re-read after the run *)
-  i_fetch : res (list line)             (* pysam.TabixFile(output).fetch(): every indexed line *)
+  i_fetch : res (list line);            (* pysam.TabixFile(output).fetch(): every indexed line *)
+  i_tbi : bool                          (* a .tbi file exists beside the output *)
 }.
 
 Definition is_version (l : line) : bool := match l with LC c => c =? VERSION_LINE | _ => false end.
 
+(* "tabix-indexed": the .tbi is there and the index hands back every data line *)
+Definition indexed_ok (k : icase) (out : list line) : bool :=
+  i_tbi k && res_eqb lines_eqb (i_fetch k) (Ok (data_lines out)).
+
+Definition unchanged_ok (k : icase) : bool :=
+  negb (i_plain k) || opt_eqb lines_eqb (i_after k) (Some (i_in k)).
+
+(* Sorted mode, a .hap file in the sense of [wf_file]: the run must succeed
+   (unless a coordinate lies beyond what a .tbi can hold: then an error is the
+   only honest answer) and a normal return must be a complete, accepted, indexed file.
+   --no-sort: an error is admissible only when tabix cannot take the file as it
+   is; a normal return - whatever the input - means every line verbatim AND indexed. *)
 Definition holds_index (k : icase) : bool :=
   if i_sort k then
     if wf_file (i_in k) then
       match i_obs k with
-      | Err e => e =? E_Unobserved      (* the harness could not observe the run: never a finding *)
+      | Err e => (e =? E_Unobserved)     (* the harness could not observe the run: never a finding *)
+                 || negb (range_okb (i_in k))
       | Ok out =>
           perm_eqb item_eqb (records (i_in k)) (records out)
           && forallb (fun l => match l with LX _ _ _ _ _ => false | _ => true end) out
           && tabix_okb out
-          && res_eqb lines_eqb (i_fetch k) (Ok (data_lines out))
-          && (negb (i_plain k) || opt_eqb lines_eqb (i_after k) (Some (i_in k)))
+          && indexed_ok k out
+          && unchanged_ok k
       end
     else true
   else
-    if tabix_okb (i_in k) then
-      res_eqb lines_eqb (i_obs k) (Ok (i_in k))
-      && res_eqb lines_eqb (i_fetch k) (Ok (data_lines (i_in k)))
-      && (negb (i_plain k) || opt_eqb lines_eqb (i_after k) (Some (i_in k)))
-    else true.
+    match i_obs k with
+    | Err e => (e =? E_Unobserved) || negb (tabix_accepts (i_in k))
+    | Ok out => lines_eqb out (i_in k) && indexed_ok k out && unchanged_ok k
+    end.
 
 Definition model_index (k : icase) : res (list line) := index_output (i_sort k) (i_in k).
 
@@ -123,7 +136,8 @@ Definition check_index (k : icase) : bool * bool :=
 (* -------- relation query: Haplotypes.read(region, haplotypes) ------------ *)
 
 Record qobs := mkqo {
-  q_reg : option region;
+  q_reg : option region;                (* what the harness meant: contig, a, b *)
+  q_str : option (list Z);              (* the region string it passed (code points) *)
   q_ids : option (list Z);
   q_res : res (list (hrec * list vrec))
 }.
@@ -132,6 +146,8 @@ Record qcase := mkq {
   q_file : list line;                   (* decompressed content of the indexed file *)
   q_orig : list line;                   (* the un-indexed file it was made from *)
   q_full : res (list (hrec * list vrec));   (* Haplotypes.read() of the un-indexed file *)
+  q_names : names;                      (* code points of the sequence names and query contigs *)
+  q_strict : bool;                      (* harness switch STRICT_COLON_CONTIGS (repaired region parser) *)
   q_queries : list qobs
 }.
 
@@ -146,35 +162,150 @@ Definition selected (reg : option region) (ids : option (list Z)) (hv : hrec * l
 Definition entry_sim (a b : hrec * list vrec) : bool :=
   hrec_eqb (fst a) (fst b) && perm_eqb vrec_eqb (snd a) (snd b).
 
-Definition holds_query1 (file : list line) (full : list (hrec * list vrec)) (q : qobs) : bool :=
-  let present := match q_reg q with
-                 | Some r => memZ (r_contig r) (contigs file)
-                 | None => true end in
-  if present then
-    match q_res q with
-    | Err _ => false
-    | Ok out => perm_eqb entry_sim (filter (selected (q_reg q) (q_ids q)) full) out
-    end
-  else true.
+(* ---- printing a region: 'c', 'c:a-' , 'c:a-b' ----------------------------- *)
+
+Fixpoint dec_fuel (n : nat) (z : Z) : list Z :=
+  match n with
+  | O => [48 + z]
+  | S n' => if z <? 10 then [48 + z] else dec_fuel n' (z / 10) ++ [48 + z mod 10]
+  end.
+(* decimal digits of z >= 0 (log2 z + 1 steps are enough) *)
+Definition dec (z : Z) : list Z := dec_fuel (Z.to_nat (Z.log2 z)) z.
+
+Definition print_reg (c : list Z) (a b : option Z) : option (list Z) :=
+  match a, b with
+  | None, None => Some c
+  | Some a, None => Some (c ++ COLON :: dec a ++ [DASH])
+  | Some a, Some b => Some (c ++ COLON :: dec a ++ DASH :: dec b)
+  | None, Some _ => None
+  end.
+
+(* the table of spellings is one-to-one where it is used: looking up the
+   spelling of a rank gives the rank back *)
+Definition names_okb (nm : names) : bool :=
+  forallb (fun tk : list Z * Z =>
+             match name_of nm (snd tk) with
+             | Some t => opt_eqb Z.eqb (lookup nm t) (Some (snd tk))
+             | None => false
+             end) nm.
+
+Definition has_colon (s : list Z) : bool := existsb (Z.eqb COLON) s.
+
+Definition bounds_ok (r : region) : bool :=
+  match r_a r, r_b r with
+  | Some a, Some b => (0 <=? a) && (a <=? b) && (1 <=? b)
+  | Some a, None => 0 <=? a
+  | None, _ => true
+  end.
+
+(* the string is the canonical spelling of the region the harness meant *)
+Definition canonical (nm : names) (r : region) (s : list Z) : bool :=
+  bounds_ok r &&
+  match name_of nm (r_contig r) with
+  | Some c => opt_eqb zl_eqb (print_reg c (r_a r) (r_b r)) (Some s)
+  | None => false
+  end.
+
+(* which canonical regions the demand covers.
+   strict (repaired parser): every one, except a bare contig name that also reads
+   as <sequence name>:<text> (no parser can tell which is meant).
+   default (the tree as it is): contigs without ':' whose 'c:a-b' / 'c:a-' string
+   is not itself a sequence name of the file. *)
+Definition in_scope (strict : bool) (nm : names) (file : list line) (r : region) (s : list Z) : bool :=
+  let bare := match r_a r with None => true | Some _ => false end in
+  if strict then
+    negb (bare && match split_last COLON s with
+                  | Some (pre, _) => is_seq nm file pre
+                  | None => false
+                  end)
+  else
+    match name_of nm (r_contig r) with
+    | Some c => negb (has_colon c) && (bare || negb (is_seq nm file s))
+    | None => false
+    end.
+
+(* a haplotype ID that reads as <sequence name>:<text>: htslib does not take it as a name *)
+Definition risky_ids (nm : names) (file : list line) : bool :=
+  existsb (fun i => match name_of nm i with
+                    | Some t => match split_last COLON t with
+                                | Some (pre, _) => is_seq nm file pre
+                                | None => false
+                                end
+                    | None => true
+                    end) (h_ids file).
+
+Definition demand (full : list (hrec * list vrec)) (q : qobs) : bool :=
+  match q_res q with
+  | Err _ => false
+  | Ok out => perm_eqb entry_sim (filter (selected (q_reg q) (q_ids q)) full) out
+  end.
+
+Definition holds_query1 (strict : bool) (nm : names) (file : list line)
+    (full : list (hrec * list vrec)) (q : qobs) : bool :=
+  if negb strict && risky_ids nm file then true
+  else
+  match q_reg q, q_str q with
+  | None, None => demand full q
+  | Some r, Some s =>
+    if memZ (r_contig r) (contigs file) && canonical nm r s && in_scope strict nm file r s
+    then demand full q else true
+  | _, _ => true
+  end.
 
 Definition holds_query (k : qcase) : bool :=
   if wf_file (q_orig k) then
     match q_full k with
     | Err e => e =? E_Unobserved
-    | Ok full => forallb (holds_query1 (q_file k) full) (q_queries k)
+    | Ok full => forallb (holds_query1 (q_strict k) (q_names k) (q_file k) full) (q_queries k)
     end
   else true.
 
+Definition model_query1 (k : qcase) (q : qobs) : res (list (hrec * list vrec)) :=
+  match q_str q with
+  | Some s => read_indexed_s (q_strict k) fetch_spec (q_file k) (q_names k) s (q_ids q)
+  | None => read_ids_s (q_strict k) fetch_spec (q_file k) (q_names k) (q_ids q)
+  end.
+
 Definition model_query (k : qcase) :=
-  (read_plain (q_orig k) None,
-   map (fun q => read_indexed false fetch_spec (q_file k) (q_reg q) (q_ids q)) (q_queries k)).
+  (read_plain (q_orig k) None, map (model_query1 k) (q_queries k)).
 
 Definition check_query (k : qcase) : bool * bool :=
   (data_eqb (read_plain (q_orig k) None) (q_full k)
-   && forallb (fun q => data_eqb (read_indexed false fetch_spec (q_file k) (q_reg q) (q_ids q)) (q_res q))
-              (q_queries k),
+   && names_okb (q_names k)
+   && forallb (fun q => data_eqb (model_query1 k q) (q_res q)) (q_queries k),
    holds_query k).
 
 (* the pinned tree (legacy = true), for the corpus witness *)
 Definition model_query_legacy (k : qcase) :=
   map (fun q => read_indexed true fetch_spec (q_file k) (q_reg q) (q_ids q)) (q_queries k).
+
+(* -------- relation tabix: pysam.tabix_index / TabixFile.fetch themselves ----
+   The contracts of the theorems, observed directly: [tabix_accepts] against
+   tabix_index(seq_col=1, start_col=2, end_col=3) on arbitrary line orders (both
+   directions: accepted AND refused), [fetch_spec] composed with [hts_region]
+   against fetch(region=...).  Nothing of haptools runs here; the property makes
+   no demand (holds = true): a disagreement is a broken contract. *)
+
+Record tobs := mkto { t_str : list Z; t_res : res (list line) }.
+
+Record tcase := mkt {
+  t_file : list line;
+  t_names : names;
+  t_accepted : res bool;                (* Ok true: indexed; Ok false: OSError "building of index ... failed" *)
+  t_all : res (list line);              (* fetch() *)
+  t_queries : list tobs
+}.
+
+Definition fetch_str (f : list line) (nm : names) (s : list Z) : res (list line) :=
+  bind (hts_region false nm f s) (fun kab => fetch_spec f (fst (fst kab)) (snd (fst kab)) (snd kab)).
+
+Definition model_tabix (k : tcase) :=
+  (tabix_accepts (t_file k), map (fun q => fetch_str (t_file k) (t_names k) (t_str q)) (t_queries k)).
+
+Definition check_tabix (k : tcase) : bool * bool :=
+  (res_eqb Bool.eqb (t_accepted k) (Ok (tabix_accepts (t_file k)))
+   && (negb (tabix_accepts (t_file k))
+       || (res_eqb lines_eqb (t_all k) (Ok (data_lines (t_file k)))
+           && forallb (fun q => res_eqb lines_eqb (fetch_str (t_file k) (t_names k) (t_str q)) (t_res q))
+                      (t_queries k))),
+   true).
